@@ -148,7 +148,7 @@ CLAIMED["C19"] = (
     "B",
 )
 CLAIMED["C20"] = (
-    "model-based testing under load against the real binary: pipelined bursts of 100-800 messages over 2-5 (one burst in eight: 17-32) URIs (incl. URIs differing only in scheme/authority) with back-pressure, checked against a per-URI client text model through the guarded $/verif/text request and hover, response order, final diagnostics (vs an unloaded in-process replay), capability gating, closed documents",
+    "model-based testing under load against the real binary: pipelined bursts of 100-800 messages over 2-5 (one burst in eight: 17-32) URIs (incl. URIs differing only in scheme/authority) with back-pressure, checked against a per-URI client text model through the guarded $/verif/text request and hover, response order, final diagnostics (vs an unloaded in-process replay), capability gating (capability announced / withheld in three shapes each), closed documents",
     "Exploration: 600 (12k) bursts x 2 schedules, half of them with floods of 40-300 consecutive changes. Scheduler interleavings are sampled, not controlled (see DESIGN section 10).",
     "Trusted: client text model; the in-process replay as reference for the final diagnostics (C01 owns incremental = fresh).",
     "DESIGN.md section 6 C20",
